@@ -1,7 +1,7 @@
 (* C03/Property.v — property C03 (downloaded log and parameter tables equal the device tables).
    Theorems only; each is closed by `exact <lemma>` and followed by Print Assumptions.
    Model: C03/Model.v (Toc, TocFetcher, element parsers, TOC server, adversary), C03/ExtModel.v. *)
-From CF Require Import Common.Bytes C03.Model C03.ExtModel C03.Proofs C03.Fetch C03.Lookup C03.Live C03.Ext.
+From CF Require Import Common.Bytes C03.Model C03.ExtModel C03.Proofs C03.Fetch C03.Lookup C03.Live C03.Ext C03.Restart.
 Open Scope Z_scope.
 
 (* Element decoding is the inverse of the firmware's wire encoding: for every entry with NUL-free
@@ -123,3 +123,37 @@ Theorem C03_persistent_marker : forall (t : toc) (d : xdev) (evs : list aev),
                                  then set_pers e else e) t).
 Proof. exact persistent_marker. Qed.
 Print Assumptions C03_persistent_marker.
+
+(* What starts the log download (Log._new_packet_cb on a reply to CMD_RESET_LOGGING, guarded by
+   `if not self.toc:`; model C03/Restart.v, tied to the real Log object).  For EVERY sequence of reset-reply
+   copies (LReset) and download events (LEv: duplicated/stale/delayed replies, packets on other channels):
+   the run equals the plain TocFetcher run on the events that follow the FIRST reset reply with all later
+   reset replies removed, and exactly one download has been started: a duplicated or delayed reset reply is a
+   no-op in every state of the fetcher (before INFO, between INFO and element 0, between elements, after
+   completion). *)
+Theorem C03_restart_guard : forall cache ver d evs,
+  lrun cache ver d evs =
+  match after_first_reset evs with
+  | None => None
+  | Some l => let '(s, o) := fetch LogCls cache ver d l in Some (1%nat, s, o)
+  end.
+Proof. exact restart_guard. Qed.
+Print Assumptions C03_restart_guard.
+
+Theorem C03_duplicate_start_is_noop : forall cache ver d x, lstep cache ver d (Some x) LReset = Some x.
+Proof. exact reset_noop. Qed.
+Print Assumptions C03_duplicate_start_is_noop.
+
+(* hence C03_fetch_exact holds for the download as started by the real Log object, whatever reset-reply
+   copies arrive and whenever: on completion the log table is exactly the device's and exactly that table
+   was stored under the device's CRC *)
+Theorem C03_log_download_exact : forall cache ver items raw crc extra evs,
+  raw_items LogCls items = Some raw -> Forall item_ok items -> 0 <= crc < 2 ^ 32 ->
+  Z.of_nat (List.length items) < (if 4 <=? ver then 65536 else 256) ->
+  admissible (strip evs) ->
+  match lrun cache ver (mkDev raw crc extra) evs with
+  | None => after_first_reset evs = None
+  | Some (n, s, o) => n = 1%nat /\ fetch_result_ok LogCls cache (4 <=? ver) items crc s o
+  end.
+Proof. exact log_download_exact. Qed.
+Print Assumptions C03_log_download_exact.
